@@ -206,7 +206,6 @@ func (c *RC) reachesCallback(fn *FuncInfo, cb string) bool {
 	return visit(fn)
 }
 
-
 // reachesCallbackSameEpoch: like reachesCallback, but not through an initialiser: what is counted after an epoch change
 // belongs to the new view (the entries counted there are those of the new view).
 func (c *RC) reachesCallbackSameEpoch(fn *FuncInfo, cb string) bool {
